@@ -217,12 +217,21 @@ def replay_sub(EoN, rec):
     K = len(series)
     probs = []
     calls = 0
-    for variant in ("list", "array"):
+    expected0 = expected
+    for variant in ("list", "array", "integer grid, fractional values"):
         rt = [t * TICK for t in report]
         tt = [t * TICK for t in times]
         ss = [list(s) for s in series]
+        expected = expected0
         if variant == "array":
             rt, tt, ss = np.array(rt), np.array(tt), [np.array(s) for s in ss]
+        elif variant.startswith("integer"):
+            # the report grid is made of integers (range / arange / a list of ints) while the observed values are
+            # not: the values must come back unchanged
+            rt, tt = np.array([int(t) for t in report]), [float(t) for t in times]
+            f = lambda v: 0.375 + 0.25 * v
+            ss = [[f(v) for v in s_] for s_ in series]
+            expected = [[f(v) for v in e] for e in expected0]
         rp = {"kind": "SUB", "record": rec, "variant": variant,
               "call": "EoN.subsample(report_times=%r, times=%r, *%r)" % (list(map(float, rt)), list(map(float, tt)), series)}
         calls += 1
